@@ -220,25 +220,30 @@ def audit(prop):
     """Compile Audit/<prop>.v (pinned statements + Print Assumptions). Returns dict."""
     res = {'obligations': 0, 'discharged': 0, 'axioms': [], 'failures': [], 'theorems': []}
     src = (COQ / 'Audit' / f'{prop}.v').read_text()
-    names = re.findall(r'^Check \((Props\.\w+\.\w+)', src, re.M)
+    names = re.findall(r'^Print Assumptions (Props\.\w+\.\w+)\.', src, re.M)
     res['obligations'] = len(names)
     res['theorems'] = names
     bad = hygiene()
     if bad:
         res['failures'] += ['hygiene: ' + b for b in bad]
+    if len(re.findall(r'^Goal ', src, re.M)) != len(names):
+        res['failures'].append('audit file: number of pinned statements differs from number of Print Assumptions')
     rc, out, err = run(['timeout', '600', 'coqc', '-Q', '.', 'TS', '-w', '-all', '-o', str(tmpdir() / f'{prop}.vo'), f'Audit/{prop}.v'], cwd=COQ, timeout=700)
     if rc != 0:
         res['failures'].append('audit file does not compile: ' + (out + err)[-1500:])
         return res
-    # split output per Print Assumptions block
+    # the audit file prints nothing but Print Assumptions reports
     closed = out.count('Closed under the global context')
     axioms = set()
-    for blk in re.findall(r'Axioms:\n((?:.+\n?)+?)(?=\n\S|\Z)', out):
-        for line in blk.splitlines():
-            m = re.match(r'^([\w.]+)\s*:', line)
-            if m:
-                axioms.add(m.group(1))
-    nblocks = closed + len(re.findall(r'Axioms:', out))
+    nax = 0
+    for line in out.splitlines():
+        if line.startswith('Axioms:'):
+            nax += 1
+            continue
+        m = re.match(r"^([A-Za-z_][\w.']*)\s*(:.*)?$", line)
+        if m and not line.startswith('Closed under'):
+            axioms.add(m.group(1))
+    nblocks = closed + nax
     res['axioms'] = sorted(axioms)
     notallowed = [a for a in axioms if a not in AXIOM_ALLOW]
     if notallowed:
